@@ -139,7 +139,8 @@ def pm1Eff (d1 d2 : Nat) : Nat := pm1EffDeg d1 d2 (pm1Deg d1)
 
 /-! ### P-1 prime walk (`b2 <= MULTIEVAL_THRESHOLD`) -/
 
-def isPrimeTD (n : Nat) : Bool := 2 ≤ n && !(anyBelow (fun k => 2 ≤ k && k * k ≤ n && n % k == 0) (n.sqrt + 2))
+/-- trial division by every `2 ≤ k ≤ ⌊√n⌋` (`Checked.isqrt`: structural, reduces in the kernel; `n < 2^64`) -/
+def isPrimeTD (n : Nat) : Bool := 2 ≤ n && !(anyBelow (fun k => 2 ≤ k && n % k == 0) (Ymq.Checked.isqrt n + 1))
 
 /-- first prime `> n` (fuel: Bertrand) -/
 def nextPrimeAux : Nat → Nat → Nat
